@@ -6,12 +6,20 @@ Layer 1 (heap):   TLC checks spec/TimerHeap.tla (transcription of the interleave
                   at the end of event.c) with the whole structure compared after every step.
 Layer 2 (timers): TLC checks spec/Timer.tla (set_timer/configure/arm/run/program/kernel fire/latch,
                   suspend/resume/cancel, dispatch_after) for never-early, count <= boundaries, only the
-                  new configuration, ArmedImpliesProgrammed, and <>fire under fairness; spec mutants.
+                  new configuration, ArmedImpliesProgrammed, and <>fire under fairness; spec mutants
+                  (among them: configure keeps the pending data of a timer that _dispatch_timers_run disarmed
+                  because it fired while suspended / behind a handler that does not keep up).
 Layer 3 (binding):harness/drv_timer.c runs seeded random populations of real timers and dispatch_after
-                  blocks on the three clocks with histories of set_timer/suspend/resume/cancel and
-                  evaluates the spec's invariants on the observed events; with the H5 probes applied, the
-                  manager's decisions (arm, run, fire, program, timerfd event, blocking wait) of real executions
-                  are validated as behaviours of spec/TimerTrace.tla (same operators as Timer.tla)."""
+                  blocks on the three clocks with histories of set_timer/suspend/resume/cancel, plus scripted
+                  reconfigurations of timers that have an undelivered fire (fired while suspended / while the
+                  target queue is busy / behind a slow handler that sets the timer itself / fired one-shot),
+                  and evaluates the spec's invariants on the observed events.  The configuration an invocation
+                  has to follow is decided exactly, as in Timer.tla (TInvoke sees no unapplied configuration):
+                  the driver observes the hooked words dt_pending_config / ds_pending_data and knows how many
+                  publications preceded the needs-configuration load of the delivering invoke.  With the H5
+                  probes applied, the manager's decisions (arm, run, fire, program, timerfd event, blocking wait)
+                  and every _dispatch_timer_unote_configure (law ConfigureClearsPending on ds_pending_data) of
+                  real executions are validated as behaviours of spec/TimerTrace.tla (same operators as Timer.tla)."""
 import os, re, json, collections, time, concurrent.futures
 from vlib import *
 
@@ -274,14 +282,19 @@ def heap_layer(v, tier, seed):
 TIMER_Q = [("q1",   1, "{}",    1, 3, 0,   1,  "{1, 1000}",      3),
            ("q2",   2, "{}",    1, 2, 0,   1,  "{1, 1000}",      2),
            ("q3",   2, "{2}",   1, 2, 0,   1,  "{1, 1000}",      2),
-           ("q4",   1, "{}",    2, 2, 0,   1,  "{1, 1000}",      2)]
+           ("q4",   1, "{}",    2, 2, 0,   1,  "{1, 1000}",      2),
+           # 4 calls: set_timer, suspend, (fire while suspended: disarmed with count<<1|MARKER), set_timer, resume
+           ("q5",   1, "{}",    1, 2, 0,   1,  "{1, 1000}",      4)]
 TIMER_T = [("q2h3", 2, "{}",    1, 3, 0,   1,  "{1, 1000}",      2),
            ("q3h3", 2, "{2}",   1, 3, 0,   1,  "{1, 1000}",      2),
            ("t1",   1, "{}",    1, 5, 1,   2,  "{1, 2, 1000}",   3),
            ("t2",   3, "{}",    1, 3, 0,   1,  "{1, 1000}",      2),
            ("t3",   2, "{2}",   2, 2, 0,   1,  "{1, 1000}",      2),
            ("t4",   1, "{}",    2, 3, 0,   1,  "{1, 2, 1000}",   2)]
-TIMER_MUTANTS = ("early", "missed_off", "noreprog", "honour_old")
+TIMER_MUTANTS = (("early", {}), ("missed_off", {}), ("noreprog", {}), ("honour_old", {}),
+                 ("configure_keeps_pending_when_disarmed", {}),
+                 # the same, restricted to pending data of a fire that found the source suspended: needs the bounds of q5
+                 ("configure_keeps_pending_suspended_fire", dict(Horizon="2", MaxCalls="4")))
 
 
 def timer_layer(v, tier, seed):
@@ -295,9 +308,12 @@ def timer_layer(v, tier, seed):
     for name, sub in live:
         cfg = cfg_from("Timer_live.cfg", "Timer_%s.cfg" % name, **sub)
         jobs.append(("Timer_%s (FairSpec: Fires, AfterFires)" % name, cfg, None, True))
-    for mut in TIMER_MUTANTS:
-        cfg = cfg_from("Timer_q.cfg", "Timer_mut_%s.cfg" % mut, Mut='"%s"' % mut)
+    for mut, sub in TIMER_MUTANTS:
+        cfg = cfg_from("Timer_q.cfg", "Timer_mut_%s.cfg" % mut, Mut='"%s"' % mut, **sub)
         jobs.append(("Timer mutant " + mut, cfg, mut, False))
+    # the pinned code's configure window (known finding KF_WINDOW): take, then clear, when _dispatch_timers_run configures
+    cfg = cfg_from("Timer_q.cfg", "Timer_dev_pinned_configure_window.cfg", Mut='"pinned_configure_window"')
+    jobs.append(("Timer deviation pinned_configure_window", cfg, "deviation", False))
     # the variant of "forget to reprogram" that the design survives (informational, thorough only)
     if tier == "thorough":
         cfg = cfg_from("Timer_q.cfg", "Timer_mut_noreprog_removed.cfg", Mut='"noreprog_removed"')
@@ -317,6 +333,13 @@ def timer_layer(v, tier, seed):
                             save_replay(PROP, os.path.basename(cfg) + ".tlc.out", r.out))
             elif liveness and "Checking temporal properties" not in r.out and "temporal properties" not in r.out:
                 raise Broken("liveness was not checked for %s" % name)
+        elif mut == "deviation":
+            if r.violated != "OnlyNewConfig":
+                raise Broken("Timer.tla with the pinned take-then-clear order of _dispatch_timer_unote_configure in _dispatch_timers_run "
+                             "(Mut=pinned_configure_window) does not violate OnlyNewConfig within the quick bounds (%s)" % r.violated)
+            v.notes["pinned_deviation_configure_window"] = ("Timer.tla, Mut=pinned_configure_window (configure called by _dispatch_timers_run takes the "
+                                                            "configuration, then clears ds_pending_data): TLC shows OnlyNewConfig violated at depth %d; "
+                                                            "with the atomic Configure (clear before take) all configurations satisfy it" % r.depth)
         elif mut == "benign":
             v.notes["benign_mutant_noreprog_removed"] = ("not reprogramming after the minimum is REMOVED is %s by TLC "
                                                          "(the kernel timer then fires early and merge_timer forces a reprogram)" %
@@ -330,6 +353,77 @@ def timer_layer(v, tier, seed):
 # ----------------------------------------------------------------------------------------------
 # layer 3: the spec's invariants as oracles on real timers
 # ----------------------------------------------------------------------------------------------
+KF_WINDOW = "configure-window-latch-race"
+
+
+def timer_failure(v, s, n, span, rc, err, fail, what, steer=None):
+    """A failed population: a violation, unless its signature is a listed known finding."""
+    j = None
+    if os.path.exists(fail):
+        try:
+            j = json.load(open(fail))
+        except ValueError:
+            j = None
+    lines = " ".join(l for l in err.splitlines() if "ORACLE-FAIL" in l or "CRASH" in l)[:1200]
+    if rc == 2 and j and j.get("signature") == "configure-window" and \
+            any(f.get("key") == KF_WINDOW for f in known_findings(PROP)["findings"]):
+        if not any(KF_WINDOW in k for k in v.known):
+            t = j.get("timer", {})
+            v.known.append("%s: a handler invocation delivered a count of the replaced configuration after dispatch_source_set_timer had "
+                           "returned: its invoke latched ds_pending_data while _dispatch_timer_unote_configure, called by _dispatch_timers_run "
+                           "on the manager, had taken the new configuration but not yet cleared the word (%s; drv_timer seed %d%s; law %s; "
+                           "configs %s; last events %s)" % (KF_WINDOW, "manager stalled %s us at that instruction by the directed population"
+                                                             % j.get("steer_us") if j.get("steer_us") else "undirected population", s,
+                                                             " C11_STEER_CFG_WINDOW=%s" % steer if steer else "", j.get("law"),
+                                                             json.dumps(t.get("configs"))[:400], json.dumps(t.get("last_events(what,gen,now,data,aux)"))[:500]))
+        v.notes["known_finding_hits_" + KF_WINDOW] = v.notes.get("known_finding_hits_" + KF_WINDOW, 0) + 1
+        return
+    if j is not None:
+        p = save_replay(PROP, "timer_seed%d.json" % s, src=fail)
+    else:
+        p = save_replay(PROP, "timer_seed%d.json" % s, json.dumps({"seed": s, "ntimers": n, "span_ms": span, "steer_us": steer or 0, "stderr": err[-3000:]}))
+    v.violation("%s (drv_timer seed %d, %d timers%s): %s" % (what, s, n, ", C11_STEER_CFG_WINDOW=%s" % steer if steer else "", lines), p)
+
+
+def directed_configure_window(v, tier, seed):
+    """Directed populations for the window between 'take the configuration' and 'clear ds_pending_data' when
+    _dispatch_timers_run configures a timer (no drain lock): one fire is left pending behind a busy target queue (timer still
+    armed), set_timer from a foreign thread, the second fire makes the manager configure and the harness stalls the manager for
+    30 ms between the two accesses (= a preemption at that instruction), the queue drains meanwhile.  The ordinary oracles
+    judge.  On the pinned tree this is the listed known finding; with the accesses in the safe order it passes."""
+    drv = build_driver("drv_timer")
+    d = rundir(PROP)
+    steer = "30000"
+    seeds = [seed * 100000 + 9000 + i for i in range(2 if tier == "quick" else 6)]
+
+    def one(s):
+        fail = os.path.join(d, "timerfail_%d.json" % s)
+        if os.path.exists(fail):
+            os.unlink(fail)
+        rc, out, err = sh([drv, str(s), "40", "300", fail], timeout=180, env={"C11_STEER_CFG_WINDOW": steer})
+        return s, rc, out, err, fail
+    with concurrent.futures.ThreadPoolExecutor(len(seeds)) as ex:
+        res = list(ex.map(one, seeds))
+    stalls = 0
+    for s, rc, out, err, fail in res:
+        if rc in (2, 70, 71, 124):
+            timer_failure(v, s, 40, 300, rc, err, fail, "directed configure-window population: an oracle (invariant of spec/Timer.tla) failed on a real timer"
+                          if rc == 2 else "directed configure-window population: crash / hang (rc %d)" % rc, steer=steer)
+        elif rc != 0:
+            raise Broken("drv_timer (directed) failed rc=%d: %s %s" % (rc, out[-500:], err[-1000:]))
+        else:
+            stalls += json.loads(out.strip().splitlines()[-1]).get("steer_stalls", 0)
+            v.traces += 1
+    hits = v.notes.get("known_finding_hits_" + KF_WINDOW, 0)
+    v.notes["directed_configure_window"] = {"populations": len(seeds), "manager_stalls_in_passing_populations": stalls, "known_finding_hits": hits}
+    if not hits and not v.violations:
+        if stalls == 0:
+            raise Broken("the directed configure-window populations never reached _dispatch_timer_unote_configure from _dispatch_timers_run "
+                         "(no stall executed): the scenario is vacuous")
+        if any(f.get("key") == KF_WINDOW for f in known_findings(PROP)["findings"]):
+            v.notes["known_finding_not_observed_" + KF_WINDOW] = "no directed population showed it on this tree (repaired?)"
+
+
 def real_timers(v, tier, seed):
     drv = build_driver("drv_timer")
     d = rundir(PROP)
@@ -352,17 +446,15 @@ def real_timers(v, tier, seed):
                 what = {2: "an oracle (invariant of spec/Timer.tla) failed on a real timer", 70: "crash inside libdispatch",
                         71: "Fires: an armed, unsuspended, uncancelled timer never fired",
                         124: "the population (normally ~2 s) did not complete within 180 s: timers or the driver's queues are stuck"}[rc]
-                if os.path.exists(fail):
-                    p = save_replay(PROP, "timer_seed%d.json" % s, src=fail)
-                else:
-                    p = save_replay(PROP, "timer_seed%d.json" % s, json.dumps({"seed": s, "ntimers": n, "span_ms": span, "stderr": err[-3000:]}))
-                v.violation("%s (drv_timer seed %d, %d timers): %s" % (what, s, n, " ".join(l for l in err.splitlines() if "ORACLE-FAIL" in l or "CRASH" in l)[:1200]), p)
+                timer_failure(v, s, n, span, rc, err, fail, what)
                 continue
             if rc != 0:
                 raise Broken("drv_timer failed rc=%d: %s %s" % (rc, out[-500:], err[-1000:]))
             j = json.loads(out.strip().splitlines()[-1])
             for k in ("timers", "sources", "after_blocks", "set_timer_calls", "handler_invocations", "exact_checks", "weak_checks",
-                      "after_runs", "zero_data_invocations", "inconclusive_wall_step"):
+                      "after_runs", "zero_data_invocations", "inconclusive_wall_step", "bound_checks", "bind_mismatch", "configures",
+                      "configure_on_disarmed_pending", "configure_on_armed_pending", "scen_susp_fire", "scen_busy_queue",
+                      "scen_slow_handler", "scen_oneshot_fired"):
                 tot[k] += j.get(k, 0)
             tot["populations"] += 1
             v.traces += j["timers"]
@@ -371,6 +463,17 @@ def real_timers(v, tier, seed):
         if v.violations:
             break
     v.notes["real_timer_oracles"] = dict(tot)
+    if not v.violations:
+        if tot["configure_on_disarmed_pending"] == 0:
+            raise Broken("no real timer was reconfigured while disarmed with undelivered pending data (fire while suspended / queue busy, "
+                         "then set_timer): the reconfiguration scenarios of drv_timer are vacuous")
+        if tot["bound_checks"] * 2 < tot["handler_invocations"]:
+            v.drift.append("drv_timer: only %d of %d handler invocations could be bound to the needs-configuration load of their invoke "
+                           "(hooked atomics on dt_pending_config out of date?): the others were judged by the weak rule"
+                           % (tot["bound_checks"], tot["handler_invocations"]))
+        if tot["bind_mismatch"]:
+            v.drift.append("drv_timer: %d invocations of own-queue-controlled timers: the generation derived from the hooked words differs "
+                           "from the generation in force on the serial queue (both are meant to be exact)" % tot["bind_mismatch"])
 
 
 # ----------------------------------------------------------------------------------------------
@@ -453,6 +556,8 @@ def timer_traces(v, tier, seed):
             v.transitions += r.generated
             tot["traces_accepted"] += len(part)
             tot["records"] += sum(j["trace_records"] for _, j, _ in part)
+            tot["configure_records"] += sum(j.get("trace_configures", 0) for _, j, _ in part)
+            tot["configure_on_disarmed_pending"] += sum(j.get("configure_on_disarmed_pending", 0) for _, j, _ in part)
             if k == 0:
                 v.samples.append({"manager_trace_accepted": {"seed": part[0][0], "records": part[0][1]["trace_records"],
                                                              "excerpt": open(hdr).read().splitlines()[1:9]}})
@@ -490,6 +595,7 @@ def run(tier, seed):
 
     def real(sv):
         real_timers(sv, tier, seed)
+        directed_configure_window(sv, tier, seed)
         if not sv.violations:
             timer_traces(subs[3], tier, seed)
     with concurrent.futures.ThreadPoolExecutor(3) as ex:
@@ -537,7 +643,8 @@ def replay(path, seed):
         drv = build_driver("drv_timer")
         bad = 0
         for k in range(3):          # timing is not deterministic: same population, three executions
-            rc, out, err = sh([drv, str(j["seed"]), str(j.get("ntimers", 120)), str(j.get("span_ms", 700))], timeout=400)
+            rc, out, err = sh([drv, str(j["seed"]), str(j.get("ntimers", 120)), str(j.get("span_ms", 700))], timeout=400,
+                              env={"C11_STEER_CFG_WINDOW": str(j["steer_us"])} if j.get("steer_us") else None)
             print("re-execution %d: rc=%d %s" % (k, rc, (err.strip().splitlines() or [""])[0][:400]))
             bad += rc != 0
         return 1 if bad else 0
